@@ -22,13 +22,14 @@ Definition flavour_eqb (a b : flavour) : bool :=
      acyclic: the real code recurses forever on a cycle; the generator creates registries in
      topological order and only re-bases onto earlier ones);
    - every other operation addresses an existing registry;
-   - rebuild() is outside C06's quantifier (it re-runs __init__, which forgets the
-     sub-registries of a push registry). *)
+   - rebuild() addresses an existing registry like every other operation (since
+     AdapterRegistry.__init__ keeps an existing _v_subregistries, the registries based on the
+     rebuilt one still hear from it). *)
 Definition wf_op (fl : flavour) (n : nat) (o : rop) : bool :=
   match o with
   | ONewReg f bs => flavour_eqb f fl && forallb (fun b => Nat.ltb b n) bs
   | OSetRegBases r bs => Nat.ltb r n && forallb (fun b => Nat.ltb b r) bs
-  | ORebuild _ => false
+  | ORebuild r
   | ORegister r _ _ _ _ | OUnregister r _ _ _ _ | OSubscribe r _ _ _ | OUnsubscribe r _ _ _
   | QLookup r _ _ _ | QLookup1 r _ _ _ | QLookupAll r _ _ | QNames r _ _ | QSubscriptions r _ _
   | QRegistered r _ _ _ | QSubscribed r _ _ _ | QAllRegistrations r | QAllSubscriptions r
@@ -58,6 +59,7 @@ Definition changed_gen (s : sys) (m : nat) (f : reg -> reg) : option nat :=
 Definition bump_target (W : world) (s : sys) (o : rop) : option nat :=
   match o with
   | OSetRegBases m _ => Some m
+  | ORebuild m => Some m        (* __init__ -> _setBases -> changed, whatever is replayed *)
   | ORegister m req p n v => changed_gen s m (fun g => register W g req p n v)
   | OUnregister m req p n v => changed_gen s m (fun g => unregister W g req p n v)
   | OSubscribe m req p v => changed_gen s m (fun g => subscribe W g req p v)
